@@ -2,29 +2,47 @@
    Vocabulary (graph, request, route), the declarative specification `RouteOK` (the property's sentence,
    clause by clause), the executable checker `routeValid` (proved equivalent in Props/C16.lean), and the
    reference single-path search `singlePathExists`.  The router's search itself is NOT modelled: every
-   route the real `find_route` returns is run through `routeValid` by the driver. -/
+   route the real `find_route` returns is run through `routeValid` by the driver.
+   v2: the "graph" is the list of CANDIDATES the router may use (router.rs `CandidateRouteHop`): public
+   channel directions, the caller's first hops (`ChannelDetails`), private hops of BOLT 11 route hints and
+   blinded payment paths (ONE candidate per path, from the introduction node to the payee). -/
 import LdkModel.Model.RouteFees
 namespace Ldk.RouteValid
 open Ldk Ldk.Router Ldk.RouteFees
 
-/-- one direction of a channel as the `NetworkGraph` holds it (ChannelInfo + ChannelUpdateInfo of that
-    direction). A direction without a `channel_update` is not in the list. -/
+/-- one candidate hop; `kind` is the GENERATED enumeration of router.rs `CandidateRouteHop`'s variants.
+    `publicHop`: one direction of a channel as the `NetworkGraph` holds it (ChannelInfo +
+    ChannelUpdateInfo of that direction; a direction without a `channel_update` is not in the list).
+    `firstHop` (one of the caller's `first_hops`, payer → counterparty): `scid` =
+    ChannelDetails::get_outbound_payment_scid() (the outbound alias if there is one), `alt` = the real
+    `short_channel_id` when the channel is ALSO known under it, `htlcMin`/`htlcMax` =
+    next_outbound_htlc_minimum_msat / next_outbound_htlc_limit_msat, `enabled` = is_usable.
+    `privateHop`: the RouteHintHop's fields (`unbounded` = no htlc_maximum_msat).
+    `blinded` / `oneHopBlinded`: a whole BlindedPaymentPath, introduction node → payee; `scid` = index of
+    the path in the payee's blinded route hints, fees / CLTV / bounds = its BlindedPayInfo.
+    The fields hold the RAW data; what the router reads of them per variant (no fees and no CLTV delta on a
+    first hop, the payinfo of a one-hop blinded path ignored, …) is applied by the generated
+    `candidate_*` tables through `Chan.feeBase`, `Chan.feeProp`, `Chan.cltvDelta`, `Chan.minMsat`,
+    `Chan.effectiveCapacity`. -/
 structure Chan where
   scid : Nat
-  src : Nat              -- forwarding node (DirectedChannelInfo::source)
-  dst : Nat              -- receiving node (DirectedChannelInfo::target)
+  src : Nat              -- forwarding node (CandidateRouteHop::source)
+  dst : Nat              -- receiving node (CandidateRouteHop::target; the payee for a blinded path)
   enabled : Bool
   htlcMin : Nat
   htlcMax : Nat
-  cap : Option Nat       -- capacity_sats * 1000, if known
+  cap : Option Nat       -- pub: capacity_sats * 1000, if known
   base : Nat
   prop : Nat
-  cltv : Nat             -- cltv_expiry_delta of the direction's policy
+  cltv : Nat             -- cltv_expiry_delta of the direction's policy / hint / payinfo
+  kind : CandidateKind := .publicHop
+  alt : Option Nat := none
+  unbounded : Bool := false
   deriving DecidableEq, Repr, Inhabited
 
 abbrev Graph := List Chan
 
-/-- the caller's request: RouteParameters / PaymentParameters (clear payee, no hints, no first hops) -/
+/-- the caller's request: RouteParameters / PaymentParameters (+ whether `first_hops` was supplied) -/
 structure Params where
   payer : Nat
   payee : Nat
@@ -35,28 +53,86 @@ structure Params where
   maxLen : Nat            -- max_path_length
   finalCltv : Nat         -- payee.final_cltv_expiry_delta
   excluded : List Nat     -- previously_failed_channels
+  hasFirst : Bool := false         -- `first_hops.is_some()`: the payer's channels are the `first` candidates ONLY
+  excludedBlinded : List Nat := [] -- previously_failed_blinded_path_idxs
   deriving Repr, Inhabited
 
-/-- router.rs `RouteHop`: the channel used to reach `node`, `fee_msat`, `cltv_expiry_delta` -/
+/-- router.rs `RouteHop`: the channel used to reach `node`, `fee_msat`, `cltv_expiry_delta`.
+    A path's `BlindedTail` is its last element with `blinded = true`: `scid` = index of the blinded
+    path, `node` = the payee, `fee` = BlindedTail::final_value_msat, `cltv` = 0 (so that the hop BEFORE
+    it — the one reaching the introduction node — carries the blinded path's aggregated fee and CLTV
+    delta, exactly as get_route fills `fee_msat` / `cltv_expiry_delta` of the last unblinded RouteHop;
+    BlindedTail::excess_final_cltv_expiry_delta is already part of that hop's `cltv_expiry_delta`:
+    add_random_cltv_offset adds the shadow offset to both, Path::total_cltv_expiry_delta sums the
+    RouteHops only). -/
 structure RHop where
   scid : Nat
   node : Nat
   fee : Nat
   cltv : Nat
+  blinded : Bool := false
   deriving DecidableEq, Repr, Inhabited
 
 abbrev RPath := List RHop
 abbrev Route := List RPath
 
-/-- the graph's entry for channel `scid` in direction `src → dst` -/
+/-- the graph's PUBLIC entry for channel `scid` in direction `src → dst` -/
 def lookup (g : Graph) (scid src dst : Nat) : Option Chan :=
-  g.find? (fun c => c.scid == scid && c.src == src && c.dst == dst)
+  g.find? (fun c => c.kind == .publicHop && c.scid == scid && c.src == src && c.dst == dst)
+
+/-- the router only uses public channels for which BOTH directions have announced a policy
+    (gossip.rs ChannelInfo::as_directed_to / as_directed_from return `None` otherwise) -/
+def twoWay (g : Graph) (c : Chan) : Bool := (lookup g c.scid c.dst c.src).isSome
+
+/-- a first-hop channel is known under its outbound alias AND under its real short_channel_id
+    (get_route step (1) `matches_an_scid`; ChannelManager resolves either to the same channel) -/
+def Chan.named (c : Chan) (scid : Nat) : Bool := c.scid == scid || c.alt == some scid
+
+/-- the two ids of a first-hop channel from the raw ChannelDetails fields: (`scid`, `alt`) =
+    (get_outbound_payment_scid() — generated —, the real short_channel_id if an alias hides it);
+    `none` for a channel without any scid (get_route panics on such a first hop) -/
+def firstHopIds (outbound_scid_alias short_channel_id : Option Nat) : Option (Nat × Option Nat) :=
+  match get_outbound_payment_scid outbound_scid_alias short_channel_id with
+  | none => none
+  | some out => some (out, if outbound_scid_alias.isSome then short_channel_id else none)
+
+/-- THE CANDIDATE a route hop `h` leaving `src` stands for.
+    * a blinded tail: the blinded candidate with that index from `src` (the introduction node, never the
+      payer itself);
+    * a hop from the payer when `first_hops` was supplied: ONLY a first-hop channel to that peer, named by
+      its alias or by its real scid (get_route skips the payer's graph channels: `first_hops.is_none() ||
+      *source != our_node_id`, and ignores hints naming a direct channel of ours);
+    * otherwise: the usable public channel direction with that scid if there is one (a hint naming a
+      channel of the graph becomes a PublicHop), else the private hop of a route hint. -/
+def resolve (g : Graph) (p : Params) (src : Nat) (h : RHop) : Option Chan :=
+  if h.blinded then
+    -- a path has at least one RouteHop: a blinded path whose introduction node is the payer is skipped
+    -- (`if our_node_id == *source_node_id { continue }`)
+    if src == p.payer then none else
+    g.find? (fun c => !candidate_has_scid c.kind && c.scid == h.scid && c.src == src && c.dst == h.node)
+  else if !public_candidate_considered (!p.hasFirst) (src == p.payer) then
+    g.find? (fun c => c.kind == .firstHop && c.named h.scid && c.src == src && c.dst == h.node)
+  else
+    match g.find? (fun c => c.kind == .publicHop && c.scid == h.scid && c.src == src && c.dst == h.node && twoWay g c) with
+    | some c => some c
+    | none => g.find? (fun c => c.kind == .privateHop && c.scid == h.scid && c.src == src && c.dst == h.node)
 
 /-- mirrors routing/gossip.rs DirectedChannelInfo::effective_capacity -/
-def Chan.effectiveCapacity (c : Chan) : EffectiveCapacity :=
+def Chan.pubCapacity (c : Chan) : EffectiveCapacity :=
   match c.cap with
   | some capacity_msat => .total capacity_msat (Nat.min c.htlcMax capacity_msat)
   | none => .advertisedMaxHTLC c.htlcMax
+
+/-- mirrors router.rs CandidateRouteHop::effective_capacity; the variant → constructor table is
+    GENERATED from that function (`candidate_capacity`, Generated/RouterFees.lean) -/
+def Chan.effectiveCapacity (c : Chan) : EffectiveCapacity :=
+  candidate_capacity c.kind c.pubCapacity c.htlcMax c.unbounded
+
+/-- what the router charges / requires for the candidate (generated per-variant tables on the raw data) -/
+def Chan.feeBase (c : Chan) : Nat := (candidate_fees c.kind c.base c.prop).1
+def Chan.feeProp (c : Chan) : Nat := (candidate_fees c.kind c.base c.prop).2
+def Chan.cltvDelta (c : Chan) : Nat := candidate_cltv_expiry_delta c.kind c.cltv
+def Chan.minMsat (c : Chan) : Nat := candidate_htlc_minimum_msat c.kind c.htlcMin
 
 /-- what the channel can carry at most: the generated `max_htlc_from_capacity` at saturation power 0
     (= min(htlc_maximum_msat, capacity)) -/
@@ -67,6 +143,9 @@ def pathAmount : RPath → Nat
   | [] => 0
   | h :: t => h.fee + pathAmount t
 
+/-- `Path::hops.len()`: the unblinded hops (PaymentParameters::max_path_length is "the maximum number of
+    Path::hops in any returned path"; Route::debug_assert_route_meets_params compares the same) -/
+def pathLen (path : RPath) : Nat := (path.filter (fun h => !h.blinded)).length
 def pathDelivered (path : RPath) : Nat := (path.getLast?.map (·.fee)).getD 0   -- Path::final_value_msat
 def pathFee (path : RPath) : Nat := (path.dropLast.map (·.fee)).sum             -- Path::fee_msat
 def totalCltv (path : RPath) : Nat := (path.map (·.cltv)).sum                   -- Path::total_cltv_expiry_delta
@@ -75,34 +154,41 @@ def overpaid (p : Params) (r : Route) : Nat := delivered r - p.amount
 /-- mirrors Route::get_total_fees: path fees plus the value delivered in excess of the request -/
 def totalFees (p : Params) (r : Route) : Nat := overpaid p r + (r.map pathFee).sum
 
-/-- the router only uses channels for which BOTH directions have announced a policy
-    (gossip.rs ChannelInfo::as_directed_to / as_directed_from return `None` otherwise) -/
-def twoWay (g : Graph) (c : Chan) : Bool := (lookup g c.scid c.dst c.src).isSome
+/-- usable: a public channel needs both directions known; the other candidates are usable as given -/
+def usableEdge (g : Graph) (c : Chan) : Bool := c.kind != .publicHop || twoWay g c
 
-/-- a hop may use channel direction `c` for `amt`: usable (both directions known), enabled, at least
+/-- the request excludes the candidate: previously_failed_channels holds the scid the router knows it
+    under (`CandidateRouteHop::short_channel_id`), previously_failed_blinded_path_idxs the index of a
+    blinded path -/
+def excludes (p : Params) (c : Chan) : Bool :=
+  if candidate_has_scid c.kind then p.excluded.contains c.scid else p.excludedBlinded.contains c.scid
+
+/-- a hop may use candidate `c` for `amt`: usable (both directions known / is_usable), enabled, at least
     the minimum, not excluded -/
 def HopOK (g : Graph) (p : Params) (c : Chan) (amt : Nat) : Prop :=
-  twoWay g c = true ∧ c.enabled = true ∧ c.htlcMin ≤ amt ∧ c.scid ∉ p.excluded
+  usableEdge g c = true ∧ c.enabled = true ∧ c.minMsat ≤ amt ∧ excludes p c = false
 
-/-- `path`, leaving node `src`, is a connected chain of existing, enabled channel directions ending at
-    the payee; every hop carries at least its minimum; every forwarding node keeps at least the fee of
-    the policy of the channel it forwards over, and at least that policy's CLTV delta. -/
+/-- `path`, leaving node `src`, is a connected chain of existing, enabled candidates (first hop, public
+    channel direction, hint hop, blinded tail) ending at the payee; every hop carries at least its
+    minimum; every forwarding node keeps at least the fee of the policy of the channel it forwards over
+    (for the introduction node of a blinded tail: the BlindedPayInfo fee on the value delivered), and at
+    least that policy's CLTV delta. -/
 inductive ChainOK (g : Graph) (p : Params) : Nat → RPath → Prop
   | last (src : Nat) (h : RHop) (c : Chan) :
-      lookup g h.scid src h.node = some c → HopOK g p c h.fee →
+      resolve g p src h = some c → HopOK g p c h.fee →
       h.node = p.payee → p.finalCltv ≤ h.cltv →
       ChainOK g p src [h]
   | cons (src : Nat) (h h' : RHop) (t : RPath) (c c' : Chan) (f : Nat) :
-      lookup g h.scid src h.node = some c → HopOK g p c (pathAmount (h :: h' :: t)) →
-      lookup g h'.scid h.node h'.node = some c' →
-      compute_fees (pathAmount (h' :: t)) c'.base c'.prop = some f → f ≤ h.fee →
-      c'.cltv ≤ h.cltv →
+      resolve g p src h = some c → HopOK g p c (pathAmount (h :: h' :: t)) →
+      resolve g p h.node h' = some c' →
+      compute_fees (pathAmount (h' :: t)) c'.feeBase c'.feeProp = some f → f ≤ h.fee →
+      c'.cltvDelta ≤ h.cltv →
       ChainOK g p h.node (h' :: t) →
       ChainOK g p src (h :: h' :: t)
 
 /-- what `paid` exceeds the policy fee of `c` for forwarding `amt` by -/
 def feeExcess (c : Chan) (amt paid : Nat) : Nat :=
-  match compute_fees amt c.base c.prop with
+  match compute_fees amt c.feeBase c.feeProp with
   | some f => paid - f
   | none => 0
 
@@ -110,34 +196,34 @@ def feeExcess (c : Chan) (amt paid : Nat) : Nat :=
     deliberately raised to its channel's `htlc_minimum_msat`: for every later hop sitting exactly at
     its minimum, the fee surplus the route reports at the node before it, and — for the final hop —
     also the value delivered beyond the request (`over`). -/
-def raisesAfter (g : Graph) (over : Nat) : RPath → Nat
+def raisesAfter (g : Graph) (p : Params) (over : Nat) : RPath → Nat
   | h :: h' :: t =>
-    (match lookup g h'.scid h.node h'.node with
+    (match resolve g p h.node h' with
      | some c' =>
-       if pathAmount (h' :: t) = c'.htlcMin then
+       if pathAmount (h' :: t) = c'.minMsat then
          feeExcess c' (pathAmount (h' :: t)) h.fee + (if t.isEmpty then over else 0)
        else 0
-     | none => 0) + raisesAfter g over (h' :: t)
+     | none => 0) + raisesAfter g p over (h' :: t)
   | _ => 0
 
-/-- one use of a channel direction by a path, with the amount that counts against its limit -/
+/-- one use of a candidate by a path, with the amount that counts against its limit.  The candidate is
+    the RESOLVED one: a first-hop channel named by its alias in one path and by its real scid in another
+    is the same channel (`resolve` / `Chan.named`), so the two uses are counted jointly. -/
 structure Use where
-  scid : Nat
-  src : Nat
-  dst : Nat
+  edge : Option Chan
   counted : Nat
   deriving Repr, Inhabited
 
-def pathUses (g : Graph) (over : Nat) : Nat → RPath → List Use
+def pathUses (g : Graph) (p : Params) (over : Nat) : Nat → RPath → List Use
   | _, [] => []
   | src, h :: t =>
-    { scid := h.scid, src := src, dst := h.node,
-      counted := pathAmount (h :: t) - raisesAfter g over (h :: t) } :: pathUses g over h.node t
+    { edge := resolve g p src h,
+      counted := pathAmount (h :: t) - raisesAfter g p over (h :: t) } :: pathUses g p over h.node t
 
-/-- total counted amount all paths of the route put on channel direction `c` -/
+/-- total counted amount all paths of the route put on candidate `c` -/
 def usageOn (g : Graph) (p : Params) (r : Route) (c : Chan) : Nat :=
-  (((r.flatMap (pathUses g (overpaid p r) p.payer)).filter
-      (fun u => u.scid == c.scid && u.src == c.src && u.dst == c.dst)).map (·.counted)).sum
+  (((r.flatMap (pathUses g p (overpaid p r) p.payer)).filter
+      (fun u => u.edge == some c)).map (·.counted)).sum
 
 /-- THE SPECIFICATION (C16, clause by clause). -/
 structure RouteOK (g : Graph) (p : Params) (r : Route) : Prop where
@@ -145,8 +231,8 @@ structure RouteOK (g : Graph) (p : Params) (r : Route) : Prop where
   paths : r.length ≤ p.maxPaths
   /-- each path: a connected chain payer → … → payee of usable channels, minimums met, nodes paid -/
   chain : ∀ path ∈ r, ChainOK g p p.payer path
-  /-- path length within the limit -/
-  len : ∀ path ∈ r, path.length ≤ p.maxLen
+  /-- path length (the number of `Path::hops`: a blinded tail is not a `RouteHop`) within the limit -/
+  len : ∀ path ∈ r, pathLen path ≤ p.maxLen
   /-- total CLTV delta of each path within the limit -/
   cltv : ∀ path ∈ r, totalCltv path ≤ p.maxCltv
   /-- no channel direction carries more than min(htlc_maximum, capacity), counted jointly over all
@@ -162,27 +248,27 @@ structure RouteOK (g : Graph) (p : Params) (r : Route) : Prop where
 /-! ### the executable checker -/
 
 def hopOk (g : Graph) (p : Params) (c : Chan) (amt : Nat) : Bool :=
-  twoWay g c && c.enabled && decide (c.htlcMin ≤ amt) && !(p.excluded.contains c.scid)
+  usableEdge g c && c.enabled && decide (c.minMsat ≤ amt) && !(excludes p c)
 
 def chainOk (g : Graph) (p : Params) : Nat → RPath → Bool
   | _, [] => false
   | src, [h] =>
-    match lookup g h.scid src h.node with
+    match resolve g p src h with
     | some c => hopOk g p c h.fee && decide (h.node = p.payee) && decide (p.finalCltv ≤ h.cltv)
     | none => false
   | src, h :: h' :: t =>
-    match lookup g h.scid src h.node, lookup g h'.scid h.node h'.node with
+    match resolve g p src h, resolve g p h.node h' with
     | some c, some c' =>
       hopOk g p c (pathAmount (h :: h' :: t)) &&
-      (match compute_fees (pathAmount (h' :: t)) c'.base c'.prop with
+      (match compute_fees (pathAmount (h' :: t)) c'.feeBase c'.feeProp with
        | some f => decide (f ≤ h.fee)
        | none => false) &&
-      decide (c'.cltv ≤ h.cltv) && chainOk g p h.node (h' :: t)
+      decide (c'.cltvDelta ≤ h.cltv) && chainOk g p h.node (h' :: t)
     | _, _ => false
 
 def chkPaths (p : Params) (r : Route) : Bool := decide (r.length ≤ p.maxPaths)
 def chkChain (g : Graph) (p : Params) (r : Route) : Bool := r.all (chainOk g p p.payer)
-def chkLen (p : Params) (r : Route) : Bool := r.all (fun path => decide (path.length ≤ p.maxLen))
+def chkLen (p : Params) (r : Route) : Bool := r.all (fun path => decide (pathLen path ≤ p.maxLen))
 def chkCltv (p : Params) (r : Route) : Bool := r.all (fun path => decide (totalCltv path ≤ p.maxCltv))
 def chkCapacity (g : Graph) (p : Params) (r : Route) : Bool := g.all (fun c => decide (usageOn g p r c ≤ c.limit))
 def chkAmount (p : Params) (r : Route) : Bool := decide (p.amount ≤ delivered r)
@@ -212,11 +298,11 @@ def verdict (g : Graph) (p : Params) (r : Route) : String :=
 /-! ### tie of the fee recurrence to returned routes -/
 
 /-- the `FeeHop`s (policy fees and minimum) of the channels a path uses; `none` if one is unknown -/
-def pathFeeHops (g : Graph) : Nat → RPath → Option (List FeeHop)
+def pathFeeHops (g : Graph) (p : Params) : Nat → RPath → Option (List FeeHop)
   | _, [] => some []
   | src, h :: t =>
-    match lookup g h.scid src h.node, pathFeeHops g h.node t with
-    | some c, some rest => some ({ base := c.base, prop := c.prop, htlcMin := c.htlcMin } :: rest)
+    match resolve g p src h, pathFeeHops g p h.node t with
+    | some c, some rest => some ({ base := c.feeBase, prop := c.feeProp, htlcMin := c.minMsat } :: rest)
     | _, _ => none
 
 /-- `some true`: the path's `fee_msat`s are exactly what `recompute` yields for the value the path
@@ -224,7 +310,7 @@ def pathFeeHops (g : Graph) : Nat → RPath → Option (List FeeHop)
     point of the recurrence); `some false` otherwise; `none` only for an empty path -/
 def pathMatchesRecurrence (g : Graph) (p : Params) (path : RPath) : Option Bool :=
   if path.isEmpty then none else
-  match pathFeeHops g p.payer path with
+  match pathFeeHops g p p.payer path with
   | none => some false
   | some hops =>
     match recompute (pathDelivered path) hops with
@@ -237,9 +323,12 @@ def recurrenceVerdict (g : Graph) (p : Params) (r : Route) : String :=
 
 /-! ### reference single-path search (for router failures) -/
 
-/-- channel direction usable for the bare requested amount -/
+/-- candidate usable for the bare requested amount (from the payer: the first hops only, if supplied) -/
 def usable (g : Graph) (p : Params) (c : Chan) : Bool :=
-  twoWay g c && c.enabled && decide (c.htlcMin ≤ p.amount) && decide (p.amount ≤ c.limit) && !(p.excluded.contains c.scid)
+  usableEdge g c && c.enabled && decide (c.minMsat ≤ p.amount) && decide (p.amount ≤ c.limit) && !(excludes p c) &&
+  (if c.src == p.payer then
+     (if p.hasFirst then c.kind == .firstHop else (c.kind == .publicHop || c.kind == .privateHop))
+   else c.kind != .firstHop)
 
 /-- breadth-first reachability of the payee over usable directions (fees ignored) -/
 def bfs (g : Graph) (p : Params) : Nat → List Nat → List Nat → Bool
